@@ -38,6 +38,10 @@ func shard() (k, n int) {
 	return
 }
 
+// firstBatch reports whether this process is the first work item of its shard: exhaustive (enumerated) parts run there
+// only, the other batches of a long run add random cases.
+func firstBatch() bool { b := os.Getenv("VERIF_BATCH"); return b == "" || b == "0" }
+
 // saveReplay writes a JSON replay file for failures found outside rapid (enumerator, tables).
 func saveReplay(property string, v any) string {
 	dir := os.Getenv("VERIF_REPLAY_OUT")
